@@ -163,6 +163,7 @@ type Request struct {
 // Gor is a goroutine known to the controller.
 type Gor struct {
 	Name   string
+	Op     bool // started through Controller.Go (its end is observed); goroutines spawned by the code under test are not
 	goid   uint64
 	Done   bool
 	Parked *Request
@@ -202,7 +203,7 @@ func goid() uint64 {
 
 // Go starts fn as a named, controlled operation goroutine.
 func (c *Controller) Go(name string, fn func()) *Gor {
-	g := &Gor{Name: name}
+	g := &Gor{Name: name, Op: true}
 	c.imu.Lock()
 	c.order = append(c.order, g)
 	c.imu.Unlock()
@@ -327,6 +328,13 @@ func (c *Controller) release(st *mstate, read bool) {
 	}
 }
 
+// AtomicPoint is called by the vatomic shim before an atomic operation that is used as synchronisation.
+func AtomicPoint(op string) {
+	if c := cur.Load(); c != nil && goid() != c.ctlGoid {
+		c.park(&Request{Kind: KindAtomic, N: 1, Label: op})
+	}
+}
+
 // Point parks the calling goroutine at a harness-owned scheduling point.
 func (c *Controller) Point(label string) {
 	c.park(&Request{Kind: KindPoint, N: 1, Label: label})
@@ -373,7 +381,7 @@ func (c *Controller) Collect() (opts []Option, parked, blockedInCode int, unfini
 		}
 		r := g.Parked
 		if r == nil {
-			if g.goid != 0 {
+			if g.goid != 0 && g.Op {
 				blockedInCode++
 				unfinished = append(unfinished, g.Name+":blocked-in-code")
 			}
